@@ -2,7 +2,7 @@
 """Re-run the property's check against every kept seed (apply to /repo, check, undo) and refresh the
 `check` record in seeded/<id>/meta.json. usage: tools/seedrecheck.py [id ...]"""
 import glob, json, os, subprocess, sys
-ids = sys.argv[1:] or sorted(os.path.basename(d) for d in glob.glob('/verif/seeded/C*-*'))
+ids = sys.argv[1:] or sorted(os.path.basename(d) for d in glob.glob('/verif/seeded/*'))
 res = {}
 for sid in ids:
     d = os.path.join('/verif/seeded', sid)
